@@ -168,6 +168,7 @@ type rewriter struct {
 	skip      map[ast.Node]bool
 	recv2     map[*ast.UnaryExpr]bool
 	rangeChan map[*ast.RangeStmt]bool
+	rangeMap  map[*ast.RangeStmt]bool
 	selBlocks map[*ast.BlockStmt]bool
 	fnStack   []string
 }
@@ -176,6 +177,7 @@ func (r *rewriter) run() {
 	r.skip = map[ast.Node]bool{}
 	r.recv2 = map[*ast.UnaryExpr]bool{}
 	r.rangeChan = map[*ast.RangeStmt]bool{}
+	r.rangeMap = map[*ast.RangeStmt]bool{}
 	r.selBlocks = map[*ast.BlockStmt]bool{}
 	// imports
 	for _, imp := range r.file.Imports {
@@ -300,6 +302,9 @@ func (r *rewriter) pre(c *astutil.Cursor) bool {
 			if _, isCh := tv.Type.Underlying().(*types.Chan); isCh {
 				r.rangeChan[n] = true
 			}
+			if orderedKeyMap(tv.Type) {
+				r.rangeMap[n] = true
+			}
 		} else if n.Value == nil {
 			fmt.Fprintf(os.Stderr, "vinstr: warning: %s: single-variable range without type information (a channel range would be missed)\n", r.where(n))
 		}
@@ -352,6 +357,9 @@ func (r *rewriter) post(c *astutil.Cursor) bool {
 		if r.rangeChan[n] {
 			r.useChan = true
 			c.Replace(r.rewriteRange(n))
+		} else if r.rangeMap[n] {
+			r.useSched = true
+			c.Replace(r.rewriteMapRange(n))
 		}
 	case *ast.SelectStmt:
 		r.useChan = true
@@ -437,6 +445,61 @@ func (r *rewriter) rewriteRange(n *ast.RangeStmt) ast.Stmt {
 	)
 	body = append(body, n.Body.List...)
 	return &ast.ForStmt{Body: &ast.BlockStmt{List: body}}
+}
+
+// orderedKeyMap reports whether t is a map whose key type is a string or integer
+// type (possibly named). Types that did not resolve (anything from an imported
+// package under the stub importer) are left alone.
+func orderedKeyMap(t types.Type) bool {
+	mt, ok := t.Underlying().(*types.Map)
+	if !ok || mt.Key() == nil {
+		return false
+	}
+	b, ok := mt.Key().Underlying().(*types.Basic)
+	if !ok || b.Kind() == types.Invalid {
+		return false
+	}
+	return b.Info()&(types.IsInteger|types.IsString) != 0 && b.Info()&types.IsUntyped == 0
+}
+
+// rewriteMapRange turns `for k, v := range m { body }` over a map with ordered
+// keys into a canonical iteration (ascending keys), because Go's random map
+// order is not owned by the scheduler:
+//
+//	for _vmN := vsched.RangeMap(m); _vmN.Next(); { k, v := _vmN.Key(), _vmN.Val(); body }
+//
+// It stays a single for statement, so labels, break and continue keep working;
+// m is evaluated once; entries deleted before they are reached are skipped.
+func (r *rewriter) rewriteMapRange(n *ast.RangeStmt) ast.Stmt {
+	r.tmp++
+	it := "_vm" + strconv.Itoa(r.tmp)
+	method := func(name string) ast.Expr {
+		return call(&ast.SelectorExpr{X: ast.NewIdent(it), Sel: ast.NewIdent(name)})
+	}
+	blank := func(e ast.Expr) bool {
+		if e == nil {
+			return true
+		}
+		id, ok := e.(*ast.Ident)
+		return ok && id.Name == "_"
+	}
+	var lhs, rhs []ast.Expr
+	if !blank(n.Key) {
+		lhs, rhs = append(lhs, n.Key), append(rhs, method("Key"))
+	}
+	if !blank(n.Value) {
+		lhs, rhs = append(lhs, n.Value), append(rhs, method("Val"))
+	}
+	body := []ast.Stmt{}
+	if len(lhs) > 0 {
+		body = append(body, &ast.AssignStmt{Lhs: lhs, Tok: n.Tok, Rhs: rhs})
+	}
+	body = append(body, n.Body.List...)
+	return &ast.ForStmt{
+		Init: &ast.AssignStmt{Lhs: []ast.Expr{ast.NewIdent(it)}, Tok: token.DEFINE, Rhs: []ast.Expr{call(sel("vsched", "RangeMap"), n.X)}},
+		Cond: method("Next"),
+		Body: &ast.BlockStmt{List: body},
+	}
 }
 
 func (r *rewriter) rewriteSelect(n *ast.SelectStmt) ast.Stmt {
